@@ -221,7 +221,12 @@ impl PendingSubscriptionSink {
 	/// the return value is simply ignored because no further notification are propagated
 	/// once reject has been called.
 	pub async fn reject(self, err: impl Into<ErrorObjectOwned>) {
-		let err = MethodResponse::subscription_error(self.id, err.into());
+		// The response to the subscribe call is subject to the response size limit, like any other response.
+		let err = MethodResponse::subscription_response(
+			self.id,
+			ResponsePayload::<()>::error(err.into()),
+			self.inner.max_response_size() as usize,
+		);
 		_ = self.inner.send(err.to_json()).await;
 		_ = self.subscribe.send(err);
 	}
